@@ -2,6 +2,7 @@
 //! generators and oracles used by the correspondence suites and the failing-input searches.
 pub mod codec;
 pub mod gen_sys;
+pub mod geom;
 pub mod oracle;
 pub mod planted;
 pub mod trace;
